@@ -890,3 +890,218 @@ Proof.
   assert (Ex : x_combos x = allc) by (inversion Hx; reflexivity).
   rewrite Ex in Hc. exists combo, w. split; [|exact Hm]. eapply all_combos_weight; eauto.
 Qed.
+
+(** * more well-formedness: constraint levels are levels of the constrained factor *)
+Lemma pos_fold_nth : forall f l s acc i,
+  fold_left (fun acc ix => if snd ix =? f then Some (fst ix) else acc) (combine (seq s (List.length l)) l) acc = Some i ->
+  acc = Some i \/ (s <= i < s + List.length l /\ nth (i - s) l 0 = f).
+Proof.
+  intros f l. induction l as [|x l IH]; intros s acc i H; cbn in H.
+  - left. exact H.
+  - apply IH in H. destruct H as [H|[H1 H2]].
+    + cbn in H. destruct (Nat.eqb_spec x f) as [->|Hne]; [|left; exact H]. inversion H; subst. right.
+      split; [cbn; lia|]. rewrite Nat.sub_diag. reflexivity.
+    + right. split; [cbn; lia|]. replace (i - s) with (S (i - S s)) by lia. exact H2.
+Qed.
+
+Lemma pos_of_nth : forall forder f i, pos_of forder f = Ok i -> i < List.length forder /\ nth i forder 0 = f.
+Proof.
+  intros forder f i H. unfold pos_of, of_option in H.
+  destruct (fold_left _ _ None) as [j|] eqn:E; [|discriminate]. inversion H; subst j.
+  apply pos_fold_nth in E. destruct E as [E|[E1 E2]]; [discriminate|]. rewrite Nat.sub_0_r in E2. split; [lia|exact E2].
+Qed.
+
+Lemma mapM_nth : forall {A B} (f : A -> res B) l ys dA dB i,
+  mapM f l = Ok ys -> i < List.length l -> f (nth i l dA) = Ok (nth i ys dB).
+Proof.
+  intros A B f l ys dA dB i H. apply mapM_ok in H. revert i. induction H as [|x y l ys Hxy _ IH]; intros i Hi; cbn in Hi; [lia|].
+  destruct i as [|i]; cbn; [exact Hxy|]. apply IH. lia.
+Qed.
+
+Lemma index_of_lt : forall {A} (eqb : A -> A -> bool) x l i, index_of eqb x l = Some i -> i < List.length l.
+Proof.
+  intros A eqb x l. induction l as [|y l IH]; intros i H; cbn in H; [discriminate|].
+  destruct (eqb x y); [inversion H; cbn; lia|]. destruct (index_of eqb x l) as [j|]; [|discriminate].
+  inversion H; subst. cbn. specialize (IH j eq_refl). lia.
+Qed.
+
+Lemma level_names_nlevels : forall fd ns, level_names fd = Ok ns -> nlevels fd = Ok (List.length ns).
+Proof.
+  intros fd ns H. unfold level_names, nlevels in *. destruct (pf_kind fd); inversion H; subst; rewrite map_length; reflexivity.
+Qed.
+
+Lemma level_index_lt : forall p fid ln li, level_index p fid ln = Ok li ->
+  exists fd n, fm p fid = Ok fd /\ nlevels fd = Ok n /\ li < n.
+Proof.
+  intros p fid ln li H. unfold level_index in H. inv_bind H as fd Hfd H. inv_bind H as ns Hns H.
+  unfold of_option in H. destruct (index_of String.eqb ln ns) as [i|] eqn:E; [|discriminate]. inversion H; subst i.
+  exists fd, (List.length ns). split; [exact Hfd|]. split; [apply level_names_nlevels; exact Hns|eapply index_of_lt; eauto].
+Qed.
+
+Lemma sem_factor_nlevels : forall p bd forder f dfd, sem_factor p bd forder f = Ok dfd ->
+  exists fd, fm p f = Ok fd /\ nlevels fd = Ok (f_nlevels dfd).
+Proof.
+  intros p bd forder f dfd H. unfold sem_factor in H. inv_bind H as fd Hfd H. inv_bind H as nl Hnl H.
+  exists fd. split; [exact Hfd|]. destruct (is_simple fd); [inversion H; subst; exact Hnl|].
+  inv_bind H as q Hq H. destruct q as [[[deps width] stride] start].
+  inv_bind H as tabs Ht H. inv_bind H as enc He H. inv_bind H as pdeps Hp H. inversion H; subst. exact Hnl.
+Qed.
+
+Definition dfactor0 : dfactor := {| f_nlevels := 0; f_sustain := 0; f_derived := None |}.
+
+Definition level_ok (S : sem) (k : dconstraint) : Prop :=
+  k_level k = 0 \/ k_level k < f_nlevels (nth (k_factor k) (s_factors S) dfactor0).
+
+Lemma sem_constraint_level : forall p bd forder maxp T c sc ks factors,
+  mapM (sem_factor p bd forder) forder = Ok factors ->
+  sem_constraint p bd forder maxp T c sc = Ok ks ->
+  forall k, In k ks -> k_level k = 0 \/ k_level k < f_nlevels (nth (k_factor k) factors dfactor0).
+Proof.
+  intros p bd forder maxp T c sc ks factors Hf H k Hk. unfold sem_constraint in H.
+  inv_bind H as wsc Hws H. destruct wsc as [wins scale].
+  assert (G : forall fid ln pf li, pos_of forder fid = Ok pf -> level_index p fid ln = Ok li ->
+                                   li < f_nlevels (nth pf factors dfactor0)).
+  { intros fid ln pf li Hpf Hli. destruct (pos_of_nth _ _ _ Hpf) as [Hlt Hnth].
+    pose proof (mapM_nth _ _ _ 0 dfactor0 pf Hf Hlt) as Hsf. rewrite Hnth in Hsf.
+    destruct (sem_factor_nlevels _ _ _ _ _ Hsf) as [fd [E1 E2]].
+    destruct (level_index_lt _ _ _ _ Hli) as [fd' [n [E1' [E2' Hlt']]]]. rewrite E1 in E1'. inversion E1'; subst fd'.
+    rewrite E2 in E2'. inversion E2'; subst. exact Hlt'. }
+  destruct c as [kd k0 [fid ln|fid]|fid ln|ix fid ln|fid|fids|n| |kind]; try discriminate.
+  - inv_bind H as pf Hpf H. inv_bind H as li Hli H. inversion H; subst. destruct Hk as [<-|[]]. cbn. right. eapply G; eauto.
+  - inv_bind H as pf Hpf H. inv_bind H as li Hli H. inversion H; subst. destruct Hk as [<-|[]]. cbn. right. eapply G; eauto.
+  - inv_bind H as pf Hpf H. inv_bind H as li Hli H. inversion H; subst. destruct Hk as [<-|[]]. cbn. right. eapply G; eauto.
+  - inv_bind H as pf Hpf H. inversion H; subst. destruct Hk as [<-|[]]. left. reflexivity.
+  - destruct fids as [|f0 [|f1 fr]]; try (inversion H; subst; contradiction).
+    inv_bind H as lens Hl H. inv_bind H as main Hm H. inv_bind H as others Ho H. inv_bind H as pm Hpm H.
+    inversion H; subst. destruct Hk as [<-|[]]. left. reflexivity.
+  - inversion H; subst. contradiction.
+  - inversion H; subst. contradiction.
+Qed.
+
+Theorem doc_sem_levels : forall p ds, doc_sem p = Ok ds ->
+  forall k, In k (s_constraints (ds_sem ds)) -> level_ok (ds_sem ds) k.
+Proof.
+  intros p ds H k Hin. unfold doc_sem, doc_sem_block in H. inv_bind H as bd Hbd H. unfold sem_of_block in H.
+  inv_bind H as kinds Hk H. destruct (negb _); [discriminate|].
+  inv_bind H as depths Hd H. set (forder := map fst (sort_by _ depths)) in *.
+  inv_bind H as factors Hf H. inv_bind H as crossings Hx H. inv_bind H as constraints Hc H.
+  inversion H; subst; cbn in *. clear H. unfold level_ok. cbn [s_factors].
+  apply in_app_or in Hin. destruct Hin as [Hin|Hin].
+  - apply in_concat in Hin. destruct Hin as [ks [Hks Hin]].
+    destruct (mapM_in _ _ _ _ Hc Hks) as [csc [Hcsc Hsem]].
+    inv_bind Hsem as cs Hcs Hsem. inv_bind Hsem as kss Hkss Hsem. inversion Hsem; subst.
+    apply in_concat in Hin. destruct Hin as [ks' [Hks' Hin]].
+    destruct (mapM_in _ _ _ _ Hkss Hks') as [c [_ Hsc']].
+    eapply sem_constraint_level; eauto.
+  - destruct (_ && _); [|contradiction]. destruct Hin as [<-|[]]. left. reflexivity.
+Qed.
+
+(** * more well-formedness: sustain counts are positive *)
+Definition su_pos (bd : blockdoc) : Prop :=
+  Forall (fun c => 0 < x_su c) (b_crossings bd) /\ Forall (fun kv : nat * nat => 0 < snd kv) (b_sustain bd).
+
+Lemma Forall_su_geom : forall cs cs', map geom cs = map geom cs' -> Forall (fun c => 0 < x_su c) cs' -> Forall (fun c => 0 < x_su c) cs.
+Proof.
+  induction cs as [|c cs IH]; intros [|c' cs'] H H'; cbn [map] in H; try discriminate; constructor.
+  - assert (Hc : geom c = geom c') by congruence. unfold geom in Hc. inversion H'; subst.
+    assert (x_su c = x_su c') by congruence. lia.
+  - inversion H'; subst. apply (IH cs'); [congruence|assumption].
+Qed.
+
+Lemma dict_set_vals : forall (Q : nat -> Prop) k v (d : list (nat * nat)),
+  Forall (fun kv => Q (snd kv)) d -> Q v -> Forall (fun kv => Q (snd kv)) (dict_set Nat.eqb k v d).
+Proof.
+  intros Q k v d H Hv. induction H as [|[k0 v0] d H0 Hd IH]; cbn.
+  - constructor; [exact Hv|constructor].
+  - destruct (k =? k0); constructor; [exact Hv|exact Hd|exact H0|exact IH].
+Qed.
+
+Lemma dict_update_vals : forall (Q : nat -> Prop) (e d : list (nat * nat)),
+  Forall (fun kv => Q (snd kv)) d -> Forall (fun kv => Q (snd kv)) e -> Forall (fun kv => Q (snd kv)) (dict_update Nat.eqb d e).
+Proof.
+  intros Q e. induction e as [|[k v] e IH]; intros d Hd He; unfold dict_update in *; cbn [fold_left]; [exact Hd|].
+  inversion He; subst. apply IH; [|assumption]. apply dict_set_vals; assumption.
+Qed.
+
+Lemma merge_su_pos : forall inners cs mode al nest bd, merge inners cs mode al nest = Ok bd ->
+  Forall su_pos inners -> su_pos bd.
+Proof.
+  intros inners cs mode al nest bd H Hin. pose proof (merge_crossings _ _ _ _ _ _ H) as Hg.
+  unfold merge in H. destruct (_ && _); [discriminate|]. inv_bind H as bd0 Hf H.
+  apply finish_fin in Hf. cbn in Hf. destruct Hf as [_ [_ [_ [Hs _]]]]. inversion H; subst; cbn in *. split; cbn.
+  - eapply Forall_su_geom; [exact Hg|]. clear -Hin. induction Hin as [|b bs [Hb _] _ IH]; cbn; [constructor|].
+    apply Forall_app. split; assumption.
+  - rewrite Hs. clear -Hin.
+    assert (G : forall d, Forall (fun kv : nat * nat => 0 < snd kv) d ->
+                          Forall (fun kv : nat * nat => 0 < snd kv) (fold_left (fun d b => dict_update Nat.eqb d (b_sustain b)) inners d)).
+    { induction Hin as [|b bs [_ Hb] _ IH]; intros d Hd; cbn [fold_left]; [exact Hd|]. apply IH.
+      apply (dict_update_vals (fun n => 0 < n)); assumption. }
+    apply G. constructor.
+Qed.
+
+Lemma block_P_zero : forall al cs, Forall (fun c => x_P c = 0) cs -> block_P al cs = 0.
+Proof.
+  intros al cs H. unfold block_P. destruct al.
+  - induction H as [|c cs Hc _ IH]; [reflexivity|]. cbn [map list_max fold_right] in *. rewrite Hc. cbn. exact IH.
+  - destruct H as [|c cs Hc _]; [reflexivity|]. rewrite Hc. reflexivity.
+  - destruct H as [|c cs Hc _]; [reflexivity|]. rewrite Hc. reflexivity.
+Qed.
+
+Lemma doc_block_su_pos : forall p b bd, doc_block p b = Ok bd -> su_pos bd.
+Proof.
+  intros p b. induction b as [d c cs rcc|d crs cs rcc mode al|b cs IH|bs cs mode al IH|o i cs al IHo IHi] using pblock_ind';
+    intros bd H; cbn [doc_block] in H.
+  - unfold doc_cross in H. inv_bind H as kinds Hk H. inv_bind H as xs Hxs H. inv_bind H as bd0 Hf H.
+    apply finish_fin in Hf. cbn in Hf. destruct Hf as [_ [_ [_ [Hs [_ [_ [_ [_ Hg]]]]]]]]. inversion H; subst; cbn. split; cbn.
+    + eapply Forall_su_geom; [exact Hg|]. apply Forall_forall. intros x Hx.
+      destruct (mapM_in _ _ _ _ Hxs Hx) as [cr [_ Hcr]]. rewrite (doc_crossing_su _ _ _ _ _ _ Hcr). lia.
+    + rewrite Hs. constructor.
+  - unfold doc_cross in H. inv_bind H as kinds Hk H. inv_bind H as xs Hxs H. inv_bind H as bd0 Hf H.
+    apply finish_fin in Hf. cbn in Hf. destruct Hf as [_ [_ [_ [Hs [_ [_ [_ [_ Hg]]]]]]]]. inversion H; subst; cbn. split; cbn.
+    + eapply Forall_su_geom; [exact Hg|]. apply Forall_forall. intros x Hx.
+      destruct (mapM_in _ _ _ _ Hxs Hx) as [cr [_ Hcr]]. rewrite (doc_crossing_su _ _ _ _ _ _ Hcr). lia.
+    + rewrite Hs. constructor.
+  - inv_bind H as inner Hi H. eapply merge_su_pos; [exact H|]. constructor; [apply IH; exact Hi|constructor].
+  - inv_bind H as inners Hi H. inv_bind H as al' Hal H. eapply merge_su_pos; [exact H|].
+    apply go_ok in Hi. clear -IH Hi. induction Hi as [|b bd bs inners Hb _ IHi]; [constructor|].
+    inversion IH; subst. constructor; [eauto|apply IHi; assumption].
+  - inv_bind H as outer Ho H. inv_bind H as inner Hi H. destruct (existsb _ _) eqn:E; [discriminate|].
+    eapply merge_su_pos; [exact H|]. constructor; [|constructor; [apply IHi; exact Hi|constructor]].
+    (* the inner length is positive: no preambles, so it is the inner trial count *)
+    assert (HP0 : Forall (fun c => x_P c = 0) (b_crossings inner)).
+    { apply Forall_forall. intros c Hc. destruct (x_P c =? 0) eqn:Z; [apply Nat.eqb_eq; exact Z|]. exfalso.
+      assert (existsb (fun c => negb (x_P c =? 0)) (b_crossings outer ++ b_crossings inner) = true).
+      { apply existsb_exists. exists c. split; [apply in_or_app; right; exact Hc|rewrite Z; reflexivity]. }
+      congruence. }
+    pose proof (doc_block_fin _ _ _ Hi) as Hfin. destruct (doc_block_inv _ _ _ Hi) as [HTi _].
+    assert (Hn : 0 < b_T inner - b_P inner) by (rewrite (fin_P _ Hfin), (block_P_zero _ _ HP0); lia).
+    destruct (IHo _ Ho) as [Hoc Hos]. split; cbn.
+    + apply Forall_forall. intros x Hx. apply in_map_iff in Hx. destruct Hx as [c [<- Hc]]. cbn.
+      rewrite Forall_forall in Hoc. specialize (Hoc c Hc). nia.
+    + assert (G : forall cs0 d, Forall (fun c => 0 < x_su c) cs0 -> Forall (fun kv : nat * nat => 0 < snd kv) d ->
+                   Forall (fun kv : nat * nat => 0 < snd kv)
+                          (fold_left (fun d c => fold_left (fun d f => dict_set Nat.eqb f (x_su c * (b_T inner - b_P inner)) d) (x_factors c) d) cs0 d)).
+      { induction cs0 as [|c cs0 IHc]; intros d Hcs Hd; cbn [fold_left]; [exact Hd|]. inversion Hcs; subst. apply IHc; [assumption|].
+        generalize (x_factors c). intro fs. revert d Hd. induction fs as [|f fs IHf]; intros d Hd; cbn [fold_left]; [exact Hd|].
+        apply IHf. apply (dict_set_vals (fun n => 0 < n)); [exact Hd|nia]. }
+      apply G; [exact Hoc|]. apply Forall_forall. intros kv Hkv. apply in_map_iff in Hkv. destruct Hkv as [[f n] [<- Hfn]]. cbn.
+      rewrite Forall_forall in Hos. specialize (Hos (f, n) Hfn). cbn in Hos. nia.
+Qed.
+
+Theorem doc_sem_sustain_pos : forall p ds, doc_sem p = Ok ds ->
+  forall fd, In fd (s_factors (ds_sem ds)) -> 0 < f_sustain fd.
+Proof.
+  intros p ds H fd Hin. unfold doc_sem, doc_sem_block in H. inv_bind H as bd Hbd H.
+  destruct (doc_block_su_pos _ _ _ Hbd) as [_ Hsu]. unfold sem_of_block in H.
+  inv_bind H as kinds Hk H. destruct (negb _); [discriminate|].
+  inv_bind H as depths Hd H. inv_bind H as factors Hf H. inv_bind H as crossings Hx H. inv_bind H as constraints Hc H.
+  inversion H; subst; cbn in Hin. destruct (mapM_in _ _ _ _ Hf Hin) as [f [_ Hsf]].
+  assert (Hg : 0 < sustain_get bd f).
+  { unfold sustain_get. destruct (dict_get Nat.eqb f (b_sustain bd)) as [n|] eqn:E; [|lia].
+    unfold dict_get in E. destruct (find _ _) as [[k v]|] eqn:Ef; [|discriminate]. apply find_some in Ef. destruct Ef as [Ef _].
+    cbn in E. inversion E; subst. rewrite Forall_forall in Hsu. exact (Hsu _ Ef). }
+  unfold sem_factor in Hsf. inv_bind Hsf as pfd Hpfd Hsf. inv_bind Hsf as nl Hnl Hsf.
+  destruct (is_simple pfd); [inversion Hsf; subst; exact Hg|].
+  inv_bind Hsf as q Hq Hsf. destruct q as [[[deps width] stride] start].
+  inv_bind Hsf as tabs Ht Hsf. inv_bind Hsf as enc He Hsf. inv_bind Hsf as pdeps Hp Hsf. inversion Hsf; subst. exact Hg.
+Qed.
